@@ -26,10 +26,34 @@ type machine struct {
 	ops      []string
 	accepted map[int]int // per peer
 	rejected map[int]int
-	ent2Gone map[int]bool // the peer announced its entity [2] as removed
+	gone     map[int]map[string]bool // per peer: the entities it announced as removed (key: fmt.Sprint of the address)
 	// the bindings the history says exist: granted by a bind call, not deleted by a delete call that
 	// was answered with success, holder neither disconnected nor removed (key: peer|client|server index)
 	granted map[string]bool
+	// why the history says a binding that was granted once is gone (same key): named in the signature when
+	// the registry still holds it
+	ended map[string]string
+}
+
+func entKey(ent []uint) string { return fmt.Sprint(ent) }
+
+func (m *machine) isGone(pi int, ent []uint) bool { return m.gone[pi][entKey(ent)] }
+
+// end: by the history the binding does not exist any more (no-op for bindings that do not exist)
+func (m *machine) end(key, why string) {
+	if m.granted[key] {
+		delete(m.granted, key)
+		m.ended[key] = why
+	}
+}
+
+// endAll ends every binding of the history whose key starts with prefix
+func (m *machine) endAll(prefix, why string) {
+	for k := range m.granted {
+		if strings.HasPrefix(k, prefix) {
+			m.end(k, why)
+		}
+	}
 }
 
 // holdsProtectedElement: does the list hold an element whose changeability flag is not true?
@@ -115,6 +139,9 @@ func (m *machine) write(t *rapid.T, pi int, client regs.Ref, si int, f *gen.Func
 		kind := "granted-binding-gone"
 		if has {
 			kind = "binding-nobody-was-granted"
+			if why := m.ended[gkey(pi, client, si)]; why != "" {
+				kind = "binding-still-there-after-" + why
+			}
 		}
 		world.Fail(t, "C03/registry-disagrees-with-history/"+kind, "by the history the binding %s -> server#%d of peer%d exists=%v (granted and not deleted since, holder still there), the registry says %v: the authorisation of this write follows the wrong state%s", client, si, pi+1, want, has, m.history())
 	}
@@ -282,25 +309,35 @@ func clientsFor(w *regs.W, si int) []regs.Ref {
 	return out
 }
 
+// bind sends a binding request of the peer's client feature for server feature si (device parts present
+// or omitted) and enters a granted binding into the history.
+func (m *machine) bind(t *rapid.T, pi int, client regs.Ref, si int) bool {
+	c := regs.Call{Peer: pi, Client: client, Server: regs.ServerRefs[si], Type: m.w.Servers[si].Type,
+		OmitClientDev: rapid.Bool().Draw(t, "omitC"), OmitServerDev: rapid.Bool().Draw(t, "omitS")}
+	_, ok := m.w.Do(c, world.BindCall(m.w.ClientAddr(c), m.w.ServerAddr(c), c.Type))
+	m.logf("bind %s => %v", c, ok)
+	if ok {
+		m.granted[gkey(pi, client, si)] = true
+		delete(m.ended, gkey(pi, client, si))
+	}
+	m.ops = append(m.ops, fmt.Sprintf("bind:%v", ok))
+	return ok
+}
+
 func (m *machine) bindThenWrite(t *rapid.T) {
 	pi := m.live(t, "peer")
 	si := rapid.IntRange(0, len(m.w.Servers)-1).Draw(t, "server")
 	cands := clientsFor(m.w, si)
 	client := cands[rapid.IntRange(0, len(cands)-1).Draw(t, "client")]
-	if m.ent2Gone[pi] && len(client.Ent) == 1 && client.Ent[0] == 2 {
+	if m.isGone(pi, client.Ent) {
 		t.Skip("entity removed")
 	}
-	c := regs.Call{Peer: pi, Client: client, Server: regs.ServerRefs[si], Type: m.w.Servers[si].Type,
-		OmitClientDev: rapid.Bool().Draw(t, "omitC"), OmitServerDev: rapid.Bool().Draw(t, "omitS")}
-	_, ok := m.w.Do(c, world.BindCall(m.w.ClientAddr(c), m.w.ServerAddr(c), c.Type))
-	m.logf("bind %s => %v", c, ok)
+	ok := m.bind(t, pi, client, si)
 	f := gen.ByFunction(m.w.Servers[si].Writable)
 	expect := ""
 	if ok {
 		expect = "accepted"
-		m.granted[gkey(pi, client, si)] = true
 	}
-	m.ops = append(m.ops, fmt.Sprintf("bind:%v", ok))
 	m.write(t, pi, client, si, f, listgen.Full, rapid.Bool().Draw(t, "ack"), expect)
 	if rapid.IntRange(0, 2).Draw(t, "thenOtherFn") == 0 {
 		// the binding does not make functions writable that are read-only or were never announced
@@ -357,14 +394,19 @@ func (m *machine) unbindThenWrite(t *rapid.T) {
 	case "other-client":
 		c.Client = regs.Ref{Ent: []uint{1}, Feat: 5}
 	}
+	// The delete request of the holder for a binding that exists by the history deletes it: the device
+	// part of either address may be left out (it then stands for the sender's resp. the recipient's device).
+	// How the request itself is answered is C09's subject; what follows is judged by the history.
+	obliged := m.granted[gkey(c.Peer, c.Client, b.si)]
 	_, ok := m.w.Do(c, world.UnbindCall(m.w.ClientAddr(c), m.w.ServerAddr(c)))
-	m.logf("unbind (%s) %s => %v", variant, c, ok)
+	m.logf("unbind (%s) %s => %v (request of the holder for an existing binding: %v)", variant, c, ok, obliged)
 	expect := ""
-	if ok && variant == "valid" {
-		expect = "rejected"
-	}
-	if ok {
-		delete(m.granted, gkey(c.Peer, c.Client, b.si))
+	if obliged {
+		m.end(gkey(c.Peer, c.Client, b.si), "delete-request")
+		if c.Peer == b.pi && c.Client.String() == b.client.String() {
+			expect = "rejected"
+		}
+		world.Label(fmt.Sprintf("unbind/holder/omitC=%v/omitS=%v", c.OmitClientDev, c.OmitServerDev))
 	}
 	m.ops = append(m.ops, fmt.Sprintf("unbind:%s:%v", variant, ok))
 	f := gen.ByFunction(m.w.Servers[b.si].Writable)
@@ -380,65 +422,161 @@ func (m *machine) reconnectThenWrite(t *rapid.T) {
 	old := m.w.Peers[b.pi]
 	m.w.Disconnect(old)
 	m.w.Reconnect(old, regs.PeerEntities())
-	m.ent2Gone[b.pi] = false
-	for k := range m.granted {
-		if strings.HasPrefix(k, fmt.Sprintf("%d|", b.pi)) {
-			delete(m.granted, k)
-		}
-	}
+	delete(m.gone, b.pi)
+	m.endAll(fmt.Sprintf("%d|", b.pi), "device-gone")
 	m.logf("peer%d disconnected and connected again", b.pi+1)
 	m.ops = append(m.ops, "reconnect")
 	f := gen.ByFunction(m.w.Servers[b.si].Writable)
 	m.write(t, b.pi, b.client, b.si, f, listgen.Full, true, "rejected")
 }
 
+// discoveryNotify sends a detailed-discovery notification of the peer: partial (the entries carry their
+// state change) or full (no filter: the entities the peer has from now on).
+func (m *machine) discoveryNotify(p *world.Peer, data *model.NodeManagementDetailedDiscoveryDataType, partial bool) {
+	cmd := model.CmdType{Function: ptr(model.FunctionTypeNodeManagementDetailedDiscoveryData), NodeManagementDetailedDiscoveryData: data}
+	if partial {
+		cmd.Filter = []model.FilterType{*model.NewFilterTypePartial()}
+	}
+	p.Send(p.Msg(model.CmdClassifierTypeNotify, p.NM(), world.LocalNM(), false, nil, cmd))
+	m.w.Sync()
+	p.Cap.Drain()
+}
+
+// entityRemoveThenWrite: ONE detailed-discovery notification of a peer announces one, two or all three of
+// its entities ([1], [2], [2,1]) as removed, in any order - as a partial notification with one "removed"
+// entry per entity (possibly next to an "added" entry for an entity that stays), or as a full notification
+// that lists only what stays. Beforehand client features of the entities that are about to go may obtain
+// bindings. Afterwards a feature of EVERY removed entity writes (the holder of a binding if there was one):
+// its entity has disappeared, so each of these writes is refused; likewise after the entities came back.
 func (m *machine) entityRemoveThenWrite(t *rapid.T) {
 	pi := m.live(t, "peer")
 	p := m.w.Peers[pi]
+	all := regs.PeerEntities()
+	order := rapid.Permutation([]int{0, 1, 2}).Draw(t, "order")
+	n := rapid.SampledFrom([]int{1, 1, 2, 2, 2, 3}).Draw(t, "removedEntities")
+	var going []world.EntSpec
+	for _, i := range order[:n] {
+		going = append(going, all[i])
+	}
+	goes := func(ent []uint) bool {
+		for _, e := range going {
+			if entKey(e.Addr) == entKey(ent) {
+				return true
+			}
+		}
+		return false
+	}
+	if rapid.Bool().Draw(t, "bindFirst") {
+		for _, e := range going {
+			if m.isGone(pi, e.Addr) {
+				continue
+			}
+			var clients []world.FeatSpec
+			for _, f := range e.Feats {
+				if f.Role == model.RoleTypeClient && f.Type != model.FeatureTypeTypeGeneric {
+					clients = append(clients, f)
+				}
+			}
+			cf := clients[rapid.IntRange(0, len(clients)-1).Draw(t, "bindFirst.client")]
+			var servers []int
+			for si, s := range m.w.Servers {
+				if s.Type == cf.Type {
+					servers = append(servers, si)
+				}
+			}
+			si := servers[rapid.IntRange(0, len(servers)-1).Draw(t, "bindFirst.server")]
+			m.bind(t, pi, regs.Ref{Ent: e.Addr, Feat: cf.ID}, si)
+		}
+	}
+	// who writes afterwards: per removed entity the holder of a binding, if there is one
+	type writer struct {
+		client regs.Ref
+		si     int
+	}
+	var writers []writer
+	held := m.bindings()
+	for _, e := range going {
+		wr := writer{regs.Ref{Ent: e.Addr, Feat: 1}, 0} // (feature 1 of every entity is a Measurement client)
+		var mine []entry
+		for _, b := range held {
+			if b.pi == pi && entKey(b.client.Ent) == entKey(e.Addr) {
+				mine = append(mine, b)
+			}
+		}
+		if len(mine) > 0 {
+			b := mine[rapid.IntRange(0, len(mine)-1).Draw(t, "holder")]
+			wr = writer{b.client, b.si}
+		}
+		writers = append(writers, wr)
+	}
 	removed := model.NetworkManagementStateChangeTypeRemoved
 	added := model.NetworkManagementStateChangeTypeAdded
-	ent2 := regs.PeerEntities()[1]
-	send := func(change *model.NetworkManagementStateChangeType, withFeatures bool) {
-		e := ent2
-		if !withFeatures {
+	form := rapid.SampledFrom([]string{"partial", "partial", "partial+added-entry", "full"}).Draw(t, "form")
+	switch form {
+	case "full":
+		// what stays: every entity the peer still has and does not remove now (entity [0] is always listed)
+		var stay []world.EntSpec
+		for _, e := range all {
+			if !m.isGone(pi, e.Addr) && !goes(e.Addr) {
+				stay = append(stay, e)
+			}
+		}
+		m.discoveryNotify(p, p.DiscoveryData(world.WithDeviceInfo(stay), nil), false)
+	default:
+		var bare []world.EntSpec
+		for _, e := range going {
 			e.Feats = nil
+			bare = append(bare, e)
 		}
-		data := p.DiscoveryData([]world.EntSpec{e}, change)
-		cmd := model.CmdType{Function: ptr(model.FunctionTypeNodeManagementDetailedDiscoveryData), Filter: []model.FilterType{*model.NewFilterTypePartial()}, NodeManagementDetailedDiscoveryData: data}
-		p.Send(p.Msg(model.CmdClassifierTypeNotify, p.NM(), world.LocalNM(), false, nil, cmd))
-		m.w.Sync()
-		p.Cap.Drain()
-	}
-	// find a binding held by a feature of entity [2], if any, to check immediacy
-	var target *entry
-	for _, b := range m.bindings() {
-		if b.pi == pi && len(b.client.Ent) == 1 && b.client.Ent[0] == 2 {
-			b := b
-			target = &b
+		data := p.DiscoveryData(bare, &removed)
+		if form == "partial+added-entry" {
+			// an entry for an entity that stays and is known (nothing changes by it), anywhere among the others
+			var stay []world.EntSpec
+			for _, e := range all {
+				if !m.isGone(pi, e.Addr) && !goes(e.Addr) {
+					stay = append(stay, e)
+				}
+			}
+			if len(stay) > 0 {
+				e := stay[rapid.IntRange(0, len(stay)-1).Draw(t, "addedEntry")]
+				at := rapid.IntRange(0, len(data.EntityInformation)).Draw(t, "addedEntryAt")
+				extra := p.DiscoveryData([]world.EntSpec{e}, &added)
+				ei := append([]model.NodeManagementDetailedDiscoveryEntityInformationType{}, data.EntityInformation[:at]...)
+				ei = append(ei, extra.EntityInformation...)
+				data.EntityInformation = append(ei, data.EntityInformation[at:]...)
+				data.FeatureInformation = extra.FeatureInformation
+			} else {
+				form = "partial"
+			}
 		}
+		m.discoveryNotify(p, data, true)
 	}
-	send(&removed, false)
-	m.ent2Gone[pi] = true
-	for k := range m.granted {
-		if strings.HasPrefix(k, fmt.Sprintf("%d|[2]/", pi)) {
-			delete(m.granted, k)
-		}
+	if m.gone[pi] == nil {
+		m.gone[pi] = map[string]bool{}
 	}
-	m.logf("peer%d announces entity [2] removed", pi+1)
-	m.ops = append(m.ops, "entity-removed")
-	si, client := 0, regs.Ref{Ent: []uint{2}, Feat: 1}
-	if target != nil {
-		si, client = target.si, target.client
+	var names []string
+	for _, e := range going {
+		m.gone[pi][entKey(e.Addr)] = true
+		m.endAll(fmt.Sprintf("%d|%v/", pi, e.Addr), "entity-removed")
+		names = append(names, entKey(e.Addr))
 	}
-	f := gen.ByFunction(m.w.Servers[si].Writable)
-	// the writer's entity is gone: the writer is no announced feature any more
-	m.write(t, pi, client, si, f, listgen.Full, true, "rejected")
+	m.logf("peer%d announces %s removed in one notification (%s)", pi+1, strings.Join(names, ", "), form)
+	m.ops = append(m.ops, fmt.Sprintf("entity-removed:%d:%s", n, form))
+	world.Label(fmt.Sprintf("entity-removal/%s/entities-%d", form, n))
+	// the writers' entities are gone: the writers are no announced features any more
+	for _, wr := range writers {
+		m.write(t, pi, wr.client, wr.si, gen.ByFunction(m.w.Servers[wr.si].Writable), listgen.Full, true, "rejected")
+	}
 	if rapid.Bool().Draw(t, "readd") {
-		send(&added, true)
-		m.ent2Gone[pi] = false
-		m.logf("peer%d announces entity [2] added again", pi+1)
-		// the old binding must not have survived
-		m.write(t, pi, client, si, f, listgen.Full, true, "rejected")
+		m.discoveryNotify(p, p.DiscoveryData(going, &added), true)
+		for _, e := range going {
+			delete(m.gone[pi], entKey(e.Addr))
+		}
+		m.logf("peer%d announces %s added again", pi+1, strings.Join(names, ", "))
+		// the old bindings must not have survived
+		for _, wr := range writers {
+			m.write(t, pi, wr.client, wr.si, gen.ByFunction(m.w.Servers[wr.si].Writable), listgen.Full, true, "rejected")
+		}
 	}
 }
 
@@ -453,14 +591,17 @@ func (m *machine) rediscovery(t *rapid.T) {
 	ents := regs.PeerEntities()
 	how := rapid.SampledFrom([]string{"reply", "added-[1]", "added-[2]", "added-[2 1]"}).Draw(t, "how")
 	if how == "reply" {
-		if m.ent2Gone[pi] {
-			ents = append(ents[:1:1], ents[2:]...)
+		var there []world.EntSpec
+		for _, e := range ents {
+			if !m.isGone(pi, e.Addr) {
+				there = append(there, e)
+			}
 		}
-		p.Announce(ents)
+		p.Announce(there)
 	} else {
 		i := map[string]int{"added-[1]": 0, "added-[2]": 1, "added-[2 1]": 2}[how]
-		if i == 1 && m.ent2Gone[pi] {
-			t.Skip("entity [2] is not there")
+		if m.isGone(pi, ents[i].Addr) {
+			t.Skip("the entity is not there")
 		}
 		added := model.NetworkManagementStateChangeTypeAdded
 		data := p.DiscoveryData([]world.EntSpec{ents[i]}, &added)
@@ -484,8 +625,9 @@ func (m *machine) unbind(t *rapid.T) {
 	}
 	_, ok := m.w.Do(c, world.UnbindCall(m.w.ClientAddr(c), m.w.ServerAddr(c)))
 	m.logf("unbind %s => %v", c, ok)
-	if si := serverIndex(c.Server); ok && si >= 0 {
-		delete(m.granted, gkey(c.Peer, c.Client, si))
+	if si := serverIndex(c.Server); si >= 0 {
+		// (the request of the holder for a binding that exists by the history deletes it, see unbindThenWrite)
+		m.end(gkey(c.Peer, c.Client, si), "delete-request")
 	}
 	m.ops = append(m.ops, "unbind-random")
 }
@@ -519,7 +661,7 @@ func (m *machine) setData(t *rapid.T) {
 
 func TestWriteGate(t *testing.T) {
 	rapid.Check(t, world.Prop(func(t *rapid.T) {
-		m := &machine{w: regs.New(3), accepted: map[int]int{}, rejected: map[int]int{}, ent2Gone: map[int]bool{}, granted: map[string]bool{}}
+		m := &machine{w: regs.New(3), accepted: map[int]int{}, rejected: map[int]int{}, gone: map[int]map[string]bool{}, granted: map[string]bool{}, ended: map[string]string{}}
 		defer m.w.Teardown()
 		t.Repeat(map[string]func(*rapid.T){
 			"write":                 m.randomWrite,
